@@ -309,7 +309,41 @@ class PerSignature:
             self.res.violate(case, why, sig)
 
 
+def client_flag_cases():
+    return [['client-flags', a, r, d] for a in (0, 1) for r in (0, 1) for d in (0, 1)]
+
+
+def evaluate_client_flags(cases, res):
+    """client side of the property: the flag word requestBusName puts on the wire states what the caller asked for
+    (ALLOW_REPLACEMENT 1, REPLACE_EXISTING 2, DO_NOT_QUEUE 4) - the bus decides ownership from exactly these bits"""
+    from twisted.internet import defer
+    from txdbus import client as _cl
+
+    class Stub:
+        def callRemote(self, *a, **kw):
+            self.a, self.kw = a, kw
+            return defer.Deferred()
+    for c in cases:
+        _, a, r, d = c
+        st = Stub()
+        try:
+            _cl.DBusClientConnection.requestBusName(st, 'a.b', allowReplacement=bool(a), replaceExisting=bool(r), doNotQueue=bool(d))
+            word = int(st.kw['body'][1])
+        except Exception as e:
+            word = 'exc:' + type(e).__name__
+        res.count(c, nontrivial=True)
+        want = (1 if a else 0) | (2 if r else 0) | (4 if d else 0)
+        if word != want:
+            res.violate(c, 'requestBusName(allowReplacement=%s, replaceExisting=%s, doNotQueue=%s) sends the flag word %r, the request means %d'
+                        % (bool(a), bool(r), bool(d), word, want), 'client:flag-word')
+
+
 def evaluate(ctx, cases, res):
+    flags = [c for c in cases if c and c[0] == 'client-flags']
+    evaluate_client_flags(flags, res)
+    cases = [c for c in cases if not (c and c[0] == 'client-flags')]
+    if not cases:
+        return
     cases = [[list(o) for o in c] for c in cases]
     lines = ['(13 %s)' % common.dump(c) for c in cases]
     outs = common.run_model(lines)
@@ -503,6 +537,7 @@ def run(ctx, res):
                 'the observer listing owner and queue of every name; exhaustive: every operation of every client '
                 'from every name-table state reachable in fewer steps than the bound; random: length 40 with '
                 'reconnects and odd names; every third message is delivered in two reads.  Non-trivial: at least two state-changing operations.')
+    evaluate_client_flags(client_flag_cases(), res)
     cases = gen_directed()
     if ctx.quick:
         cases += gen_exhaustive(ctx, 4, 3, GOOD, res)
